@@ -178,6 +178,7 @@ MALFORMED = [
     'from a import b.c', 'from a b', 'from import a', 'import a b', 'include', 'include 5', 'include a.gin',
     "include 'a' 5", 'a.b = @', 'a.b = @x/ y', 'a.b = @x()()', 'a.b = @x(1)', 'a.b = %', 'a.b = % x', 'a.b = @a .b',
     'a.b = 1 # ok', 'a \\\n.b = 1', 'a.\\\nb = 1', 'a/b \\\n= 1',
+    'train/\\\n      fn.a = 1', 'a/\\\n  b.c = 1', 'a.\\\n  b = 1', 'ab\\\n  .c = 1', 'x.y = @a/\\\n        b()', 'x.y = %a/\\\n        b',
 ]
 
 
@@ -193,6 +194,21 @@ class StmtEngine(Engine):
     return [{'kind': 'malformed', 'stmts': [], 'layouts': [m]} for m in MALFORMED]
 
   def gen(self, rng, tier):
+    if rng.random() < 0.06:
+      # a scoped name split by a backslash continuation whose next line is indented to exactly the column
+      # where the previous token ended (so that only the line number distinguishes the pieces)
+      parts = [rng.choice(IDENTS) for _ in range(rng.randint(2, 4))]
+      seps = [rng.choice(['/', '.']) for _ in parts[:-1]]
+      k = rng.randrange(len(parts) - 1)
+      head = ''.join(p + s for p, s in zip(parts[:k + 1], seps[:k + 1]))
+      if rng.random() < 0.5:
+        head = head[:-1]
+        tail = seps[k] + ''.join(p + s for p, s in zip(parts[k + 1:], seps[k + 1:] + ['']))
+      else:
+        tail = ''.join(p + s for p, s in zip(parts[k + 1:], seps[k + 1:] + ['']))
+      pre = rng.choice(['', 'x.y = @', 'x.y = %'])
+      text = pre + head + '\\\n' + ' ' * (len(pre) + len(head) + rng.choice([0, 0, 0, 1])) + tail + ('.zz = 1' if not pre else '')
+      return {'kind': 'malformed', 'stmts': [], 'layouts': [text]}
     if rng.random() < 0.15:
       # malformed: one valid statement list with one mutated selector line
       base = rng.choice(MALFORMED)
